@@ -56,6 +56,21 @@ def _jw_expand(terms):
     return out
 
 
+def _cancel_last(terms):
+    """does the last term cancel the accumulated coefficient of an identical earlier operator string exactly?
+    (what add_term does with repeated raw terms: coefficients of identical strings add, null sums are dropped)"""
+    if len(terms) < 2:
+        return False
+    acc = {}
+    for c, ops in terms[:-1]:
+        k = tuple(ops)
+        v = acc.pop(k, 0) + c
+        if v != 0:
+            acc[k] = v
+    c, ops = terms[-1]
+    return tuple(ops) in acc and acc[tuple(ops)] + c == 0
+
+
 def _make_builder(terms, lab, hs, jw, pd, style):
     from quimb.operator import SparseOperatorBuilder
 
@@ -303,6 +318,7 @@ def observe_case(terms, n, jw, pd, lab, style, rng, have_nx, rich=False, nsector
     scale = float(2 ** F)
     rec = {"ev": "case", "tid": tid, "n": n, "F": F, "jw": bool(jw), "pd": int(pd), "terms": U.terms_json(terms),
            "labelling": lab.name, "style": int(style), "samesite": bool(U.has_samesite(_jw_expand(terms) if jw else terms)),
+           "cancel_last": bool(style == 2 and _cancel_last(terms)),
            "bexc": "", "order_ok": True, "fok": False, "fterms": [], "reps": [], "sectors": [],
            "hasmodel": model is not None, "model_fterms": []}
     if model is not None:
@@ -454,6 +470,21 @@ def observe_ranktables(nmax, nmax_species, rng, dispatch_rank_syms, config_level
                         except Exception as ex:  # noqa
                             r["exc"] = type(ex).__name__
                         recs.append(r)
+                        if contiguous and n <= 8:
+                            r3 = base("U1U1", sec, regsA, n, "configcore.dispatch", "registers")
+                            try:
+                                import math
+                                sarr = np.array(sec, dtype=np.int64)
+                                r3["size"] = math.comb(na, ka) * math.comb(nb, kb)
+                                fcs = [cc.rank_to_flatconfig(k, sarr, 3) for k in range(r3["size"])]
+                                r3["tab"] = [U.cfg_of(fc) for fc in fcs]
+                                try:
+                                    r3["inv"] = [int(cc.flatconfig_to_rank(fc, sarr, 3)) for fc in fcs]
+                                except Exception as ex:  # noqa
+                                    r3["iexc"] = type(ex).__name__
+                            except Exception as ex:  # noqa
+                                r3["exc"] = type(ex).__name__
+                            recs.append(r3)
     # the rank dispatcher of configcore: one table per requested symmetry (each failing call costs
     # a numba compilation attempt)
     for sym in dispatch_rank_syms:
@@ -549,15 +580,8 @@ def observe_float_cases(rng, ncases, nrange, have_nx):
         jw = mode in (1, 3)
         pd = int(rng.integers(3)) if mode >= 2 else 0
         cons = [None, "U1", "Z2", "U1"][mode]
-        vocab = U.OPS if not jw else ["+", "-", "n", "z", "h", "I"]
-        # the float tier has no exact oracle to attribute a failure to the known same-register-product
-        # defect, so it stays outside that input class (the exact tier covers it exhaustively)
-        for _try in range(50):
-            terms = U.rand_terms(rng, n, int(rng.integers(2, 9)), 3, vocab, samesite_p=0.0, conserving=cons, diag=("n", "z", "h"))
-            if not U.bug_class(terms, jw):
-                break
-        else:
-            continue
+        vocab = U.OPS if not jw else ["+", "-", "n", "z", "h", "sn", "I", "sz", "x"]
+        terms = U.rand_terms(rng, n, int(rng.integers(2, 9)), 3, vocab, samesite_p=0.1, conserving=cons)
         terms = [(complex(rng.normal(), rng.normal() if rng.random() < 0.5 else 0.0), ops) for _, ops in terms]
         labs = U.labellings(n, rng, with_species=True)
         lab = labs[int(rng.integers(len(labs)))]
@@ -808,10 +832,9 @@ def run(ctx):
         recs.append(observe_case(terms, n, bool(c["jw"]), int(c["pd"]), lab, ci % 3, rng, have_nx,
                                  rich=(ci % 8 == 0), nsectors=1, model=None if lab.auto else c, tid=10))
     ctx.sample({"replayed_case": {k: recs[0][k] for k in ("terms", "jw", "pd", "n", "labelling", "fterms")}})
-    fails = ctx.validate("C19_Trace", "Trace.cfg", recs, name="replay", ntraces=len(recs))
+    nreplayed = len(recs)
 
     # ---- 4. C->S: random exact term lists on 1..4 sites, every representation, sectors
-    recs = []
     ncase = 330 if quick else 3000
     for ci in range(ncase):
         u = rng.random()
@@ -826,24 +849,41 @@ def run(ctx):
         terms = U.rand_terms(rng, n, nterms, maxlen, vocab, conserving=cons)
         labs = U.labellings(n, rng, with_species=True)
         lab = labs[int(rng.integers(len(labs)))]
-        recs.append(observe_case(terms, n, jw, pd, lab, int(rng.integers(3)), rng, have_nx,
+        style = int(rng.integers(3))
+        if ci % 16 == 6:
+            # the last add_term call cancels an earlier operator string exactly (after everything was built once)
+            k = int(rng.integers(len(terms)))
+            acc = sum(c for c, ops in terms if ops == terms[k][1])
+            if acc != 0:
+                terms = terms + [(-acc, list(terms[k][1]))]
+                style = 2
+                if rng.random() < 0.6:
+                    jw, pd = False, 0      # no toggle between the first build and the cancelling call
+                if lab.auto:
+                    lab = labs[0]
+        recs.append(observe_case(terms, n, jw, pd, lab, style, rng, have_nx,
                                  rich=(ci % 6 == 0), nsectors=(2 if n < 4 else 1), tid=11))
-    ctx.sample({"random_case": {k: recs[1][k] for k in ("terms", "jw", "pd", "n", "labelling", "fterms")}})
-    fails += ctx.validate("C19_Trace", "Trace.cfg", recs, name="cases", ntraces=len(recs))
+    ctx.sample({"random_case": {k: recs[nreplayed + 1][k] for k in ("terms", "jw", "pd", "n", "labelling", "fterms")}})
+    for i, r in enumerate(recs):
+        r["tid"] = 100 + i          # one trace per case: chunks may split anywhere
+    fails = ctx.validate("C19_Trace", "Trace.cfg", recs, name="cases", ntraces=len(recs), chunk=1200)
 
     # ---- 5. rank tables of the real kernels and HilbertSpace
     rrecs = observe_ranktables(9 if quick else 12, 5 if quick else 7, rng,
-                               dispatch_rank_syms=(["U1"] if quick else ["none", "Z2", "U1", "U1U1"]),
+                               dispatch_rank_syms=["none", "Z2", "U1", "U1U1"],
                                config_level_upto=(6 if quick else 9))
     ctx.sample({"ranktable": {k: rrecs[5][k] for k in ("sym", "sec", "n", "how", "labelling", "tab", "inv")}})
     rrecs_m = observe_mixed_tables(rng, not quick)
-    fails += ctx.validate("C19_Trace", "Trace.cfg", rrecs + rrecs_m, name="ranktables", ntraces=len(rrecs) + len(rrecs_m), chunk=4000)
 
     # ---- 6. relational tier: floats / larger n / built-in models / 1D spin-chain builders
     frecs = observe_float_cases(rng, 24 if quick else 160, (4, 6) if quick else (4, 8), have_nx)
     frecs += observe_models_operator(rng, have_nx)
     mrecs = observe_models_1d(rng, (2, 3, 4), not quick)
-    fails += ctx.validate("C19_Trace", "Trace.cfg", frecs + mrecs, name="relations", ntraces=len({r.get("case", r.get("name")) for r in frecs + mrecs}))
+    other = rrecs + rrecs_m + frecs + mrecs
+    for i, r in enumerate(other):
+        r["tid"] = 100000 + i
+    fails += ctx.validate("C19_Trace", "Trace.cfg", other, name="tables+relations",
+                          ntraces=len(rrecs) + len(rrecs_m) + len({r.get("case", r.get("name")) for r in frecs + mrecs}), chunk=4000)
 
     notes = [f for f in fails if f["clause"].startswith("NOTE:")]
     real = [f for f in fails if not f["clause"].startswith("NOTE:")]
@@ -867,7 +907,7 @@ def run(ctx):
     ctx.extra["rank_table_entries"] = int(sum(len(r["tab"]) for r in rrecs))
     ctx.extra["relational_records"] = len(frecs) + len(mrecs)
     ctx.clauses.update([
-        "BuilderAccepts", "OrderingHonoured", "FinalTermsDenote", "PauliOnly", "SameSiteProductScalar",
+        "BuilderAccepts", "OrderingHonoured", "FinalTermsDenote", "PauliOnly", "SameSiteProductScalar", "StaleAfterCancellingTerm",
         "DenseEq", "SparseEq", "MatvecEq", "LinopEq", "LocalTermsEq", "IkronEq", "MpoEq", "CouplingEq", "NOTE:CouplingRowConvention",
         "SectorBasisIsRanking", "SectorDenseEq", "SectorSparseEq", "SectorMatvecEq", "SectorLinopEq",
         "RankReturns", "UnrankReturns", "RankSize", "RankInSector", "RankInjective", "RankRoundTrip",
